@@ -250,6 +250,10 @@ func runC13(e *env) error {
 	if firstErr != nil {
 		return firstErr
 	}
+	// wave 10: package-less types (error, any, unsafe.Pointer, ...) at every position x every settings family in effect
+	if err := c13UniverseCross(e, e.r.Fork(1310), base); err != nil {
+		return err
+	}
 	// the binary on the first batch plus -g fuzz: exit status 2 would be a Go panic
 	bin := goverterBin(e)
 	nBin := 12
@@ -297,6 +301,11 @@ func runC13(e *env) error {
 		}
 		for gi, g := range gs {
 			hzJobs = append(hzJobs, &hzJob{hz: hz, g: g, root: filepath.Join(base, fmt.Sprintf("rt%d_%d", hi, gi))})
+		}
+	}
+	for hi, hz := range universeHazards() {
+		for gi, g := range universeHazardGlobals {
+			hzJobs = append(hzJobs, &hzJob{hz: hz, g: g, root: filepath.Join(base, fmt.Sprintf("uh%d_%d", hi, gi))})
 		}
 	}
 	var hwg sync.WaitGroup
